@@ -337,3 +337,7 @@ Lemma datauri_findings_proof :
   (* a parameter VALUE "base64" is taken for the marker: "data:x/y;a=base64,%07" *)
   data_uri b64_decode (data_scheme ++ [120; 47; 121; 59; 97; 61] ++ base64_bytes ++ [44; 37; 48; 55]) = Ok DB64Err.
 Proof. vm_compute. split; reflexivity. Qed.
+
+Lemma no_panic_datauri_proof :
+  forall b64dec b, Forall is_byte b -> exists r, data_uri b64dec b = Ok r.
+Proof. intros b64dec b Hb. destruct (datauri_total_proof b64dec b Hb) as (r & Hr & _). eauto. Qed.
